@@ -133,6 +133,9 @@ func init() {
 	extraRules["C13"] = both(stale("share/pvss", "proof/dleq"), roTargetsFor("share/pvss.", "proof/dleq."), loopShare("share/pvss", "proof/dleq"),
 		func(c *Ctx) { AccGate(c, "default", "C13") })
 	extraRules["C06"] = roTargetsFor(").Pair", ").ValidatePairing")
+	// ciphertexts, keys and messages are inputs only: a decryptor that writes into its ciphertext can
+	// make its own integrity comparison vacuous (anon header) or break a second decryption
+	extraRules["C16"] = roTargetsFor("encrypt/ecies.", "encrypt/ibe.", "sign/anon.Encrypt", "sign/anon.Decrypt")
 	extraRules["C08"] = both(stale("sign/schnorr", "sign/eddsa", "sign/anon"), entropyRule("C08"))
 	extraRules["C02"] = entropyRule("C02")
 	extraRules["C17"] = entropyRule("C17")
